@@ -137,6 +137,14 @@ def _judge(model, cls, kind, sym, fields, pss, mem):
         if sym in ("or", "and", "min", "max"):
             fn = {"or": "any", "and": "all"}.get(sym, sym)
             ok = rv[0] == "call" and rv[1] == fn and _seq_over(rv[2][0], f)
+            if ok and sym in ("or", "and") and rv[2][0][1] != "gen":
+                # Python's and/or stop at the deciding operand; any()/all()
+                # do so only when handed a lazy iterable
+                return False, (
+                    f"{fn}() is handed a fully built {rv[2][0][1]} of the "
+                    "evaluated operands: every operand is evaluated before the "
+                    f"first is looked at, so '{sym}' no longer stops at the "
+                    "deciding operand (x == 0 or 1/x > y raises at x = 0)")
             return ok, f"{fn}(children), lazily" if ok else \
                 f"result is not {fn}(rec(child) for child in children)"
     if kind == "compare":
